@@ -1,0 +1,182 @@
+//go:build verif
+
+package index
+
+import (
+	"fmt"
+
+	"github.com/sourcegraph/zoekt"
+)
+
+// Verification hooks for property C02 (match ranges). Not part of the normal build.
+
+// VerifC02Cand is the observable part of a candidateMatch.
+type VerifC02Cand struct {
+	FileName bool
+	Off, Sz  uint32
+}
+
+// VerifC02Atom is one atom of a synthetic match tree: Kind 0 substr, 1 regexp, 2 word, 3 symbolRegexp;
+// Wrap 0 none, 1 not, 2 noVisit, 3 fileName, 4 boost, 5 nested or, 6 andLine (substr atoms only; others fall back to and),
+// 7 symbolSubstr (substr atoms only; others fall back to none).
+// Known is the value stored in the `known` map for the atom (and for its wrapper).
+type VerifC02Atom struct {
+	Kind, Wrap int
+	Known      bool
+	Cands      []VerifC02Cand
+}
+
+func verifC02ToCands(cs []VerifC02Cand) []*candidateMatch {
+	out := make([]*candidateMatch, 0, len(cs))
+	for _, c := range cs {
+		out = append(out, &candidateMatch{fileName: c.FileName, byteOffset: c.Off, byteMatchSz: c.Sz})
+	}
+	return out
+}
+
+func verifC02FromCands(cs []*candidateMatch) []VerifC02Cand {
+	out := make([]VerifC02Cand, 0, len(cs))
+	for _, c := range cs {
+		out = append(out, VerifC02Cand{FileName: c.fileName, Off: c.byteOffset, Sz: c.byteMatchSz})
+	}
+	return out
+}
+
+// VerifC02Gather runs the real indexData.gatherMatches for a document named `name` over a synthetic match
+// tree (an `and` or an `or` of the given atoms) whose atoms already hold their verified candidates.
+func VerifC02Gather(name []byte, atoms []VerifC02Atom, rootOr bool) []VerifC02Cand {
+	d := &indexData{fileNameContent: name, fileNameIndex: []uint32{0, uint32(len(name))}}
+	known := map[matchTree]bool{}
+	var children []matchTree
+	for _, a := range atoms {
+		var leaf matchTree
+		cs := verifC02ToCands(a.Cands)
+		switch a.Kind {
+		case 0:
+			leaf = &substrMatchTree{current: cs}
+		case 1:
+			leaf = &regexpMatchTree{found: cs}
+		case 2:
+			leaf = &wordMatchTree{found: cs}
+		default:
+			leaf = &symbolRegexpMatchTree{found: cs}
+		}
+		known[leaf] = a.Known
+		var ch matchTree = leaf
+		switch a.Wrap {
+		case 1:
+			ch = &notMatchTree{child: leaf}
+		case 2:
+			ch = &noVisitMatchTree{leaf}
+		case 3:
+			ch = &fileNameMatchTree{child: leaf}
+		case 4:
+			ch = &boostMatchTree{child: leaf, boost: 2}
+		case 5:
+			ch = &orMatchTree{children: []matchTree{leaf}}
+		case 6:
+			ch = &andLineMatchTree{andMatchTree{children: []matchTree{leaf}}}
+		case 7:
+			if st, ok := leaf.(*substrMatchTree); ok {
+				ch = &symbolSubstrMatchTree{substrMatchTree: st}
+				// visitMatches descends with the embedded pointer as key
+			}
+		}
+		if ch != leaf {
+			known[ch] = a.Known
+		}
+		children = append(children, ch)
+	}
+	var root matchTree = &andMatchTree{children: children}
+	if rootOr {
+		root = &orMatchTree{children: children}
+	}
+	return verifC02FromCands(d.gatherMatches(0, root, known))
+}
+
+// VerifC02BreakOnNewlines is breakMatchesOnNewlines.
+func VerifC02BreakOnNewlines(text []byte, cs []VerifC02Cand) []VerifC02Cand {
+	return verifC02FromCands(breakMatchesOnNewlines(verifC02ToCands(cs), text))
+}
+
+// VerifC02RuneOffsetMap returns makeRuneOffsetMap(off) as (runeOffset, byteOffset) pairs and the results of
+// lookup for each rune offset in rs as (byteOffset, left) pairs.
+func VerifC02RuneOffsetMap(off []uint32, rs []uint32) (m [][2]uint32, res [][2]uint32) {
+	rom := makeRuneOffsetMap(off)
+	for _, c := range rom {
+		m = append(m, [2]uint32{c.runeOffset, c.byteOffset})
+	}
+	for _, r := range rs {
+		b, l := rom.lookup(r)
+		res = append(res, [2]uint32{b, l})
+	}
+	return m, res
+}
+
+func verifC02IndexData(s zoekt.Searcher) (*indexData, error) {
+	d, ok := s.(*indexData)
+	if !ok {
+		return nil, fmt.Errorf("searcher is %T, not *indexData", s)
+	}
+	return d, nil
+}
+
+// VerifC02DocNames lists the file names of a shard in document order.
+func VerifC02DocNames(s zoekt.Searcher) ([][]byte, error) {
+	d, err := verifC02IndexData(s)
+	if err != nil {
+		return nil, err
+	}
+	var out [][]byte
+	for i := uint32(0); i < d.numDocs(); i++ {
+		out = append(out, append([]byte(nil), d.fileName(i)...))
+	}
+	return out, nil
+}
+
+// VerifC02FindOffsets calls contentProvider.findOffset(fileName, r) for every r in rs on document doc of
+// the shard behind s, and reports the shard's PlainASCII flag.
+func VerifC02FindOffsets(s zoekt.Searcher, doc uint32, fileName bool, rs []uint32) (offs []uint32, plainASCII bool, err error) {
+	d, err := verifC02IndexData(s)
+	if err != nil {
+		return nil, false, err
+	}
+	if doc >= d.numDocs() {
+		return nil, false, fmt.Errorf("doc %d out of range", doc)
+	}
+	cp := &contentProvider{id: d, stats: &zoekt.Stats{}}
+	cp.setDocument(doc)
+	for _, r := range rs {
+		o := cp.findOffset(fileName, r)
+		if cp.err != nil {
+			return nil, false, cp.err
+		}
+		offs = append(offs, o)
+	}
+	return offs, d.metaData.PlainASCII, nil
+}
+
+// VerifC02Fill runs the real contentProvider.fillMatches / fillChunkMatches on document doc of the shard
+// behind s for the given (sorted, non-overlapping) candidates.
+func VerifC02Fill(s zoekt.Searcher, doc uint32, cs []VerifC02Cand, numContextLines int, chunks bool) (lm []zoekt.LineMatch, cm []zoekt.ChunkMatch, err error) {
+	d, err := verifC02IndexData(s)
+	if err != nil {
+		return nil, nil, err
+	}
+	if doc >= d.numDocs() {
+		return nil, nil, fmt.Errorf("doc %d out of range", doc)
+	}
+	cp := &contentProvider{id: d, stats: &zoekt.Stats{}}
+	cp.setDocument(doc)
+	opts := &zoekt.SearchOptions{NumContextLines: numContextLines, ChunkMatches: chunks}
+	ms := verifC02ToCands(cs)
+	for _, m := range ms {
+		m.file = doc
+	}
+	if chunks {
+		cm = cp.fillChunkMatches(ms, numContextLines, "", opts)
+	} else {
+		lm = cp.fillMatches(ms, numContextLines, "", opts)
+	}
+	return lm, cm, cp.err
+}
